@@ -104,6 +104,9 @@ func (e *Enum) setIsIota() {
 		if !member.Const.Exported() {
 			continue // ignore non exported const
 		}
+		if seen[v] {
+			return // duplicated value : positions and values do not match
+		}
 		seen[v] = true
 		if max < v {
 			max = v
